@@ -49,6 +49,12 @@ CLAIMED = {
         text="Breadth-first search over histories of {insert, remove_vertex, Edit-API k=1 insert / k=1 remove, repair_delaunay_with_flips_advanced, clone swap, serde round-trip swap, mutable-view touch} from the empty triangulation and from constructed seeds (D=2..4, 5 in thorough; both kernels; alphabets containing on-edge and collinear points so that perturbation retries occur). In every reached state: all live vertices are pairwise at least the documented tolerance apart (exact arithmetic) and UUIDs are unique; then, on a clone, an insertion (both entry points) is probed at q, q+-0.5e-10 and q+-2e-10 for every current (stored) and every former vertex position q, and the outcome must be the duplicate-coordinates outcome exactly when the reference model has a live vertex strictly within 1e-10; re-using a live UUID must give the duplicate-UUID error.",
         note="Probes within 1% of the tolerance boundary are skipped. Batch-construction skipping/counting of duplicates is covered by C01's multiset and near-duplicate families. Two genuine defects found by this check were repaired (fix: 59315ef Edit-API flips bypassed the spatial index; fix: 289869f index kept stale keys after the initial-simplex rebuild).",
         design_ref="DESIGN.md section 5 (C09)"),
+    "C05": dict(
+        category="fault_enumeration",
+        technique="exhaustive enumeration of a fault catalogue at every location of every seed complex (through guarded raw mutators), library verdict per level compared with an independent reference verdict",
+        text="For every batch-constructed subject (subsets of scaled grids, D=2..5, all three guarantees on D=2,3, both kernels) each of 27 fault kinds - non-finite coordinate, nil UUID, cell with missing / extra / repeated vertex, short neighbour buffer, UUID-map entry removed / redirected, cell referencing a removed vertex, dangling / wrong incident cell, duplicate cell, neighbour slot cleared / invented / wrong cell / dangling / rotated, vertex slots swapped with and without their neighbour slots, raw cell removal, isolated vertex, two vertices identified (pinched links), cell vertex replaced (inverted / overlapping cells), vertex moved onto / across the opposite facet / far away - is injected at every location, plus a strided set of fault pairs on complexes with at most 4 cells. The reference recomputes Levels 1-3 (and completion-time vertex links) from the raw cells; the lowest violated level owns the fault: the library's validator of that level must reject, every lower level must accept, uncorrupted library output must be accepted by everything, tds.validate / triangulation.validate / dt.validate must equal the conjunction of their levels, validation_report must be Ok exactly when validate is, and no validator may panic.",
+        note="Geometric verdicts whose determinant is non-zero but inside the tolerance band are skipped; exactly flat cells are certain. Faults are applied through the verif-hooks raw accessors only.",
+        design_ref="DESIGN.md section 5 (C05), Appendix B"),
     "C06": dict(
         category="model_checking",
         technique="exhaustive enumeration of (state, vertex) removal transitions on the real object plus BFS insert/remove histories; independent reference and exact oracle on every successor",
